@@ -217,10 +217,20 @@ theorem batch_modes_uniform (infos : List Info) :
   rw [walk_is_runs] at hr
   exact (run_named_exactly r (runs_joined infos r hr).1 d hd).2
 
+/-- **batch_named_full (C02).** From the call on: whatever deliveries the application passes, in whatever
+    order, the dispositions written name — up to order — exactly those of them that are still in the
+    unsettled map, each once per occurrence. -/
+theorem batch_named_full (infos : List Info) (unsettled : Info → Bool) :
+    ((disposeAllFull infos unsettled).flatMap named).Perm ((infos.filter unsettled).map (·.id)) := by
+  unfold disposeAllFull
+  rw [batch_named_exactly]
+  exact ((List.mergeSort_perm infos _).filter unsettled).map _
+
 /-- non-vacuity: ids 3 4 5 with a mode change after 4, a gap, then 9 twice -/
 example : disposeAll [⟨3, none⟩, ⟨4, none⟩, ⟨5, some true⟩, ⟨9, none⟩, ⟨9, none⟩] =
     [⟨3, 4, none⟩, ⟨5, 5, some true⟩, ⟨9, 9, none⟩, ⟨9, 9, none⟩] := by decide
 /-- a chunking that ignored the mode (a seeded change of an earlier round) would put 5 under 3's flag -/
 example : (disposeAll [⟨3, none⟩, ⟨4, none⟩, ⟨5, some true⟩]).length = 2 := by decide
+
 
 end Amqp.Dispose
